@@ -333,6 +333,7 @@ func (bs *baseServer) Handshake(transportName string, ctx *types.HttpContext) (*
 
 	bs.clients.Store(id, socket)
 	bs.clientsCount.Add(1)
+	verifhook.At("handshake.stored", id)
 
 	unregister := func(...any) {
 		if _, ok := bs.clients.LoadAndDelete(id); ok {
@@ -340,6 +341,7 @@ func (bs *baseServer) Handshake(transportName string, ctx *types.HttpContext) (*
 		}
 	}
 	socket.Once("close", unregister)
+	verifhook.At("handshake.listening", id)
 
 	// The transport is already live: the session may have closed before the
 	// listener above existed, in which case its close event is gone for good.
